@@ -101,9 +101,24 @@ func c05load(g *Gen, i int, path string, files map[string]string, names []string
 	if c05depFirst {
 		ud := filepath.Join(dir, "c05user")
 		os.MkdirAll(ud, 0755)
-		os.WriteFile(filepath.Join(ud, "user.go"), []byte("package c05user\n\nimport _ \""+path+"\"\n"), 0644)
+		os.WriteFile(filepath.Join(ud, "user.go"), []byte(c05userSrc(path, files)), 0644)
 		if err := p.LoadPackagesWithConfigForTesting(cfg, "ex.test/c05user"); err != nil {
 			return nil, err
+		}
+		if c05universeBetween {
+			// the universe is made now (the dependency's types reachable from the user are walked now)
+			// and the package itself is requested into it afterwards
+			u, err := p.NewUniverse()
+			if err != nil {
+				return nil, err
+			}
+			cwd, _ := os.Getwd()
+			os.Chdir(dir)
+			os.Setenv("GOFLAGS", "-mod=mod")
+			os.Setenv("GOWORK", "off")
+			_, err = p.LoadPackagesTo(&u, path)
+			os.Chdir(cwd)
+			return u, err
 		}
 	}
 	if err := p.LoadPackagesWithConfigForTesting(cfg, path); err != nil {
